@@ -93,12 +93,50 @@ func runC20(c *Ctx) {
 		return d
 	}
 
-	// ---- temp files
-	tempCase := func(gen string, existing []int64, k int) {
+	// ---- temp files. The directory has a HISTORY: names that are taken may belong to files of any shape
+	// (kind 0 fresh with data, 1 fresh and empty, 2 empty and three days old, 3 old with data,
+	// 4 a directory, 5 a dangling symlink) -- a taken name is never reused, whatever it looks like.
+	tempCase := func(gen string, existing []int64, kinds []int64, k int) {
 		d := scratchDir()
 		defer os.RemoveAll(d)
-		for _, e := range existing {
-			os.WriteFile(filepath.Join(d, fmt.Sprintf("pfx%03d.sfx", e)), []byte(fmt.Sprintf("old%d", e)), 0o644)
+		old := time.Now().Add(-72 * time.Hour)
+		type snap struct {
+			mode os.FileMode
+			mt   time.Time
+			data string
+		}
+		look := func(p string) snap {
+			fi, err := os.Lstat(p)
+			if err != nil {
+				return snap{}
+			}
+			sn := snap{mode: fi.Mode(), mt: fi.ModTime()}
+			if fi.Mode().IsRegular() {
+				b, _ := os.ReadFile(p)
+				sn.data = "=" + string(b)
+			}
+			return sn
+		}
+		before := map[int64]snap{}
+		for i, e := range existing {
+			p := filepath.Join(d, fmt.Sprintf("pfx%03d.sfx", e))
+			switch kinds[i] {
+			case 0:
+				os.WriteFile(p, []byte(fmt.Sprintf("old%d", e)), 0o644)
+			case 1:
+				os.WriteFile(p, nil, 0o644)
+			case 2:
+				os.WriteFile(p, nil, 0o644)
+				os.Chtimes(p, old, old)
+			case 3:
+				os.WriteFile(p, []byte(fmt.Sprintf("old%d", e)), 0o644)
+				os.Chtimes(p, old, old)
+			case 4:
+				os.Mkdir(p, 0o755)
+			case 5:
+				os.Symlink(filepath.Join(d, "nowhere"), p)
+			}
+			before[e] = look(p)
 		}
 		names := make([]string, k)
 		c20RunPar(k, func(i int) {
@@ -111,36 +149,45 @@ func runC20(c *Ctx) {
 			names[i] = n
 		})
 		created := make([]int64, k)
+		intact := true // every creator still finds its own output in the file it was given
 		for i, n := range names {
 			b := filepath.Base(n)
 			v, err := strconv.ParseInt(strings.TrimSuffix(strings.TrimPrefix(b, "pfx"), ".sfx"), 10, 64)
 			if err != nil || !strings.HasPrefix(b, "pfx") {
 				v = -1
+			} else if data, err := os.ReadFile(n); err != nil || string(data) != fmt.Sprintf("new%d", i) {
+				intact = false
 			}
 			created[i] = v
 		}
 		sort.Slice(created, func(a, b int) bool { return created[a] < created[b] })
 		untouched := true
 		for _, e := range existing {
-			b, err := os.ReadFile(filepath.Join(d, fmt.Sprintf("pfx%03d.sfx", e)))
-			if err != nil || string(b) != fmt.Sprintf("old%d", e) {
+			if look(filepath.Join(d, fmt.Sprintf("pfx%03d.sfx", e))) != before[e] {
 				untouched = false
 			}
 		}
-		c.Case(gen, L(S("tempfile"), Zs(existing), ZI(k)), L(Zs(created), Bool(untouched)), k >= 2, "op:tempfile")
+		c.Case(gen, L(S("tempfile"), Zs(existing), ZI(k), Zs(kinds)), L(Zs(created), Bool(untouched), Bool(intact)), k >= 2, "op:tempfile")
 	}
-	tempCase("tempfile-empty-dir", nil, 8)
-	tempCase("tempfile-gap", []int64{1, 2, 4, 7}, 6)
-	tempCase("tempfile-one", nil, 1)
+	tempCase("tempfile-empty-dir", nil, nil, 8)
+	tempCase("tempfile-gap", []int64{1, 2, 4, 7}, []int64{0, 0, 0, 0}, 6)
+	tempCase("tempfile-one", nil, nil, 1)
+	tempCase("tempfile-old-empty-leftover", []int64{1}, []int64{2}, 8)
+	tempCase("tempfile-history", []int64{1, 2, 3, 4, 5, 6}, []int64{0, 1, 2, 3, 4, 5}, 8)
 	for n := 0; n < c.Budget(60, 1500); n++ {
-		var ex []int64
+		var ex, kd []int64
 		m := c.R.Intn(14)
 		for i := 1; i <= m; i++ {
 			if c.R.P(2, 3) {
 				ex = append(ex, int64(i))
+				if c.R.P(1, 2) {
+					kd = append(kd, 0)
+				} else {
+					kd = append(kd, int64(c.R.Intn(6)))
+				}
 			}
 		}
-		tempCase("tempfile-random", ex, 1+c.R.Intn(c.Budget(16, 48)))
+		tempCase("tempfile-random", ex, kd, 1+c.R.Intn(c.Budget(16, 48)))
 	}
 
 	// ---- option store
@@ -502,6 +549,20 @@ func runC20(c *Ctx) {
 		if err != nil {
 			continue
 		}
+		// history: on every third object the FIRST use fails (address outside the mapping); the Once
+		// latches that outcome like any other, so every later caller reads the same error
+		failedFirst := n%3 == 2
+		if failedFirst {
+			f.Close()
+			f, err = bu.Open(exe, 0x400000, 0x500000, 0, "")
+			if err != nil {
+				continue
+			}
+			if _, err := f.ObjAddr(0x10); err == nil {
+				f.Close()
+				continue
+			}
+		}
 		got := make([]Term, len(addrs))
 		c20RunPar(len(addrs), func(i int) {
 			o, err := f.ObjAddr(addrs[i])
@@ -517,7 +578,11 @@ func runC20(c *Ctx) {
 			in = append(in, ZU(a))
 		}
 		onceOK++
-		c.Case("once-objaddr", L(S("once"), ZU(base), L(in...)), L(got...), true, "op:once")
+		if failedFirst {
+			c.Case("once-failed-first-use", L(S("once"), ZU(base), L(in...), Bool(true)), L(got...), true, "op:once")
+			continue
+		}
+		c.Case("once-objaddr", L(S("once"), ZU(base), L(in...), Bool(false)), L(got...), true, "op:once")
 	}
 	c.Extra["once_cases"] = onceOK
 
@@ -535,6 +600,28 @@ func runC20(c *Ctx) {
 		})
 		s := bu.String()
 		c.Case("binutils-cow", L(S("cow"), ZI(k)), Bool(strings.HasSuffix(s, "fast=true") || strings.HasSuffix(s, "fast=false")), true, "op:cow")
+	}
+
+	// ---- first use of a Binutils (lazy default tool lookup in get) overlapped with a setter: whatever
+	// the order, the setting must survive (one at a time: first use then set, or set then use, both
+	// end with fast=true)
+	for n := 0; n < c.Budget(10, 150); n++ {
+		k := 2 + c.R.Intn(5)
+		lost := 0
+		for rep := 0; rep < 4; rep++ {
+			bu := &binutils.Binutils{}
+			c20RunPar(k, func(i int) {
+				if i == 0 {
+					bu.SetFastSymbolization(true)
+				} else {
+					_ = bu.String()
+				}
+			})
+			if !strings.HasSuffix(bu.String(), "fast=true") {
+				lost++
+			}
+		}
+		c.Case("binutils-first-use", L(S("cow1"), ZI(k)), ZI(lost), true, "op:cow1")
 	}
 
 	// ---- settings file: concurrent saves, then concurrent deletes
